@@ -408,7 +408,7 @@ func (g *gen) containers() []*lang.S {
 	}
 	n := 3 + g.pick(10, "cn")
 	for i := 0; i < n; i++ {
-		switch g.pick(15, "ck") {
+		switch g.pick(16, "ck") {
 		case 0:
 			newList()
 		case 1:
@@ -546,6 +546,30 @@ func (g *gen) containers() []*lang.S {
 				out = append(out, lang.Assign(lang.Var(nm), m), lang.RW(g.uniq("rwm"), lang.Idx(lang.Var(nm), key), g.scalar()))
 			}
 			g.tag("read-after-write-unusual-key")
+		case 14: // the SAME assignment statement is executed several times with another index / key each time (loop, function
+			// called twice), the target being a container inside a container: every write must land where its own index says
+			o := g.uniq("o")
+			n := 2 + g.pick(3, "nw")
+			items := lang.List()
+			for i := 0; i < n; i++ {
+				items.A = append(items.A, num(0))
+			}
+			iv := g.uniq("i")
+			fn := g.uniq("put")
+			out = append(out,
+				lang.Assign(lang.Var(o), lang.MapLit(lang.Str("items"), items, lang.Str("m"), lang.MapLit())),
+				&lang.S{K: "for", Vars: []string{iv}, E: lang.Call(lang.Var("range"), num(0), num(n-1)), Body: []*lang.S{
+					lang.Assign(lang.Idx(lang.Dot(lang.Var(o), "items"), lang.Var(iv)), lang.Op("plus", lang.Var(iv), num(10))),
+					lang.Rec(lang.Idx(lang.Dot(lang.Var(o), "items"), lang.Var(iv)))}},
+				lang.Rec(lang.Dot(lang.Var(o), "items")),
+				&lang.S{K: "func", Fn: &lang.Func{Name: fn, Params: []string{"k", "v"}, Defs: []*lang.E{nil, nil}, Body: []*lang.S{
+					lang.Assign(lang.Idx(lang.Dot(lang.Var(o), "m"), lang.Var("k")), lang.Var("v")),
+					lang.Return(lang.Call(lang.Var("len"), lang.Dot(lang.Var(o), "m")))}}},
+				lang.Rec(lang.Call(lang.Var(fn), lang.Str("a"), num(1))),
+				lang.Rec(lang.Call(lang.Var(fn), lang.Str("b"), num(2))),
+				lang.Rec(lang.Call(lang.Var(fn), lang.Str("a"), num(3))),
+				lang.Rec(lang.Dot(lang.Var(o), "m")))
+			g.tag("same-assignment-other-index")
 		default:
 			if c := pickVar([]string{"list", "map"}[g.pick(2, "lk")]); c != nil {
 				out = append(out, lang.Rec(lang.Call(lang.Var("len"), lang.Var(c.name))))
